@@ -422,7 +422,68 @@ func genC15() {
 				}
 				return true
 			})
-			prefix = firstLit("expandApkWriter.Next: strings.HasPrefix", callLits(fd, "strings.HasPrefix"))
+			// the name prefix of a signature entry: the literal of strings.HasPrefix in Next, or — when the test
+			// sits in a helper Next calls (one level) — the helper's HasPrefix literal, string constant, or the
+			// string literal it compares with
+			prefixIn := func(n ast.Node) string {
+				if ls := callLits(n, "strings.HasPrefix"); len(ls) > 0 && len(ls[0]) > 0 {
+					return ls[0][len(ls[0])-1]
+				}
+				found := ""
+				ast.Inspect(n, func(m ast.Node) bool {
+					if found != "" {
+						return false
+					}
+					switch x := m.(type) {
+					case *ast.GenDecl:
+						if x.Tok == token.CONST {
+							for _, sp := range x.Specs {
+								if vs, ok := sp.(*ast.ValueSpec); ok {
+									for _, v := range vs.Values {
+										if l, ok := strLit(v); ok && found == "" {
+											found = l
+										}
+									}
+								}
+							}
+						}
+					case *ast.BinaryExpr:
+						if x.Op == token.EQL {
+							if l, ok := strLit(x.Y); ok {
+								found = l
+							} else if l, ok := strLit(x.X); ok {
+								found = l
+							}
+						}
+					}
+					return true
+				})
+				return found
+			}
+			prefix = ""
+			if ls := callLits(fd, "strings.HasPrefix"); len(ls) > 0 && len(ls[0]) > 0 {
+				prefix = ls[0][len(ls[0])-1]
+			} else if f := load(rel); f != nil {
+				ast.Inspect(fd, func(m ast.Node) bool {
+					c, ok := m.(*ast.CallExpr)
+					if !ok || prefix != "" {
+						return true
+					}
+					id, ok := c.Fun.(*ast.Ident)
+					if !ok {
+						return true
+					}
+					for _, d := range f.Decls {
+						if h, ok := d.(*ast.FuncDecl); ok && h.Recv == nil && h.Name.Name == id.Name && h.Body != nil {
+							prefix = prefixIn(h.Body)
+						}
+					}
+					return true
+				})
+			}
+			if prefix == "" {
+				fail("%s: expandApkWriter.Next: the name prefix of a signature entry was not found (strings.HasPrefix literal in Next or in a helper it calls)", rel)
+			}
 		}
 		if initMax < 0 || signedMax < 0 {
 			fail("%s: expandApkWriter: maxStreams literals not found", rel)
